@@ -17,8 +17,19 @@ struct Work {
 /// FORCE: the first allocation cannot fit in the 16-byte chunk (concrete layout => the chunk switch is certain and
 /// the requested chunk size is a constant); otherwise both layouts are symbolic and have to cope inside the chunk
 fn any_work<const FORCE: bool>() -> Work {
+    if unsafe { FILL_CHUNK2 } {
+        // the second allocation fills chunk 2 (80 B capacity) so far that the space left in it when the scope ends
+        // (0..16 B) is smaller than the first request: replaying the workload must still re-enter chunk 2 - the
+        // retained chunk is rewound lazily, its stale position must not be used to judge whether a request fits
+        // (third-round seeded change)
+        let s2: usize = kani::any();
+        kani::assume(s2 >= 40 && s2 <= 56);
+        return Work { l1: Layout::from_size_align(24, 8).unwrap(), l2: Layout::from_size_align(s2, 8).unwrap() };
+    }
     Work { l1: if FORCE { Layout::from_size_align(24, 8).unwrap() } else { any_layout(16, 4) }, l2: any_layout(8, 3) }
 }
+/// concrete per harness: see `any_work`
+static mut FILL_CHUNK2: bool = false;
 
 fn run<A, St: BumpAllocatorSettings>(s: &BumpScope<'_, A, St>, w: Work) -> (usize, usize)
 where
@@ -223,6 +234,20 @@ scope_unallocated_harness!(scope_unallocated_scoped_stateful_up1, VAStateful, S<
 // build passes; the two variants are left out, see DESIGN.md 13)
 scope_unallocated_harness!(scope_unallocated_reset_to_start_over_up1, VAOver, S<1, true, false>, 5, 64);
 scope_unallocated_harness!(scope_unallocated_reset_stateful_up4, VAStateful, S<4, true, false>, 6, 48);
+macro_rules! scope_fill_harness {
+    ($name:ident, $S:ty, $kind:literal) => {
+        #[kani::proof]
+        #[kani::unwind(6)]
+        #[kani::stub(std::alloc::handle_alloc_error, crate::stubs::hae_stub)]
+        fn $name() {
+            unsafe { FILL_CHUNK2 = true };
+            scope_body::<VA, $S, $kind, true>(1);
+        }
+    };
+}
+scope_fill_harness!(scope_scoped_fill_up1_b1, S<1, true>, 0);
+scope_fill_harness!(scope_checkpoint_fill_down1_b1, S<1, false>, 3);
+scope_fill_harness!(scope_guard_drop_fill_up4_b1, S<4, true>, 1);
 scope_harness!(scope_scoped_up1_b1, S<1, true>, 0, 1);
 scope_harness!(scope_scoped_down1_b1, S<1, false>, 0, 1);
 scope_harness!(scope_guard_drop_up1_b1, S<1, true>, 1, 1);
